@@ -12,6 +12,7 @@ from mc import payload as P
 from mc.termcheck import short
 
 PROPERTY = "C10"
+PAYLOAD_SEEDS = {"thorough": [0, 1, 2, 3]}  # the thorough tier repeats the whole enumeration for four payload seeds
 ASSUMPTIONS = [
     "operators have a simple spectrum whose moduli are separated by >= 0.5 (so 'the k largest / smallest in magnitude' is unambiguous), "
     "eigenvector matrices with cond <= 10",
